@@ -296,9 +296,80 @@ fn boundary_v<V: Fv>(ctx: &Ctx, rep: &mut Report) {
     rep.merge(r);
 }
 
+/// Lenient decoding made observable through verify: triples well inside the bound whose
+/// encoding is then made malformed in ways that leave the decoded vector (almost) unchanged:
+/// a padding bit set, a negative zero, the final stop bit dropped near the buffer end.
+fn lenient_v<V: Fv>(ctx: &Ctx, rep: &mut Report) {
+    let reps = ctx.sz(4, 40);
+    let r = par_for(12 * reps, ncpu(), |job, rep| {
+        let t = (job % 12) as u32 + 1; // spare bits at the end of the body
+        let mut rng = rng_for(ctx.seed, &format!("c02-lenient-{}-{}", V::NAME, job));
+        let c = match craft_exact(V::N, V::BOUND - 3_000_000 - (job as i64), 100 + t, &mut rng) {
+            Some(c) => c,
+            None => {
+                rep.count("craft_failed", 1);
+                return;
+            }
+        };
+        let l = V::SIG_LEN - 41;
+        let body = match spec::compress(&c.s2, l) {
+            Some(b) => b,
+            None => return,
+        };
+        let used = spec::compressed_bits(&c.s2);
+        if used != 8 * l - t as usize {
+            rep.inconclusive(format!("tight craft uses {} bits, wanted {}", used, 8 * l - t as usize));
+            return;
+        }
+        let pkb = spec::pk_encode(&c.h);
+        let base = check_triple::<V>("lenient-base", &c.msg, &build_sig::<V>(&c.salt, &body), &pkb, rep);
+        if !matches!(base, Some((true, _))) {
+            rep.inconclusive("lenient base triple is not accepted by the reference".into());
+            return;
+        }
+        let flip = |b: &[u8], bit: usize| {
+            let mut x = b.to_vec();
+            x[bit / 8] ^= 128 >> (bit % 8);
+            x
+        };
+        let mut variants: Vec<(String, Vec<u8>)> = vec![];
+        // padding bits: first after the encoding, last of the buffer
+        variants.push(("padding-first".into(), flip(&body, used)));
+        variants.push(("padding-last".into(), flip(&body, 8 * l - 1)));
+        // final stop bit dropped: the unary run of the last coefficient reaches the buffer end
+        variants.push(("drop-last-stop-bit".into(), flip(&body, used - 1)));
+        // negative zero: set the sign bit of a coefficient that is zero
+        let mut off = 0;
+        let mut done = 0;
+        for (i, v) in c.s2.iter().enumerate() {
+            if *v == 0 && done < 2 && (i == c.s2.len() - 1 || i % 7 == 0 || done == 0) {
+                variants.push((format!("negative-zero-at-{}", i), flip(&body, off)));
+                done += 1;
+            }
+            off += 9 + (v.unsigned_abs() >> 7) as usize;
+        }
+        for (name, b2) in variants {
+            let out = check_triple::<V>(&format!("lenient-{}-t{}", name.split("-at-").next().unwrap(), t), &c.msg, &build_sig::<V>(&c.salt, &b2), &pkb, rep);
+            if let Some((false, VerifyTrace::BadEncoding)) = out {
+                rep.count("lenient_malformed_cases", 1);
+                rep.nontrivial(format!("lenient|{}|{}|{}", V::NAME, job, name).as_bytes());
+            } else {
+                rep.inconclusive(format!("malformation {} did not produce a malformed encoding: {:?}", name, out));
+            }
+        }
+        if job == 0 {
+            rep.sample(json!({"variant": V::NAME, "class": "lenient", "spare_bits": t, "norm": c.norm, "malformations": ["padding-first", "padding-last", "drop-last-stop-bit", "negative-zero"]}));
+        }
+    });
+    rep.merge(r);
+}
+
 pub fn boundary(ctx: &Ctx, rep: &mut Report) {
     boundary_v::<F512>(ctx, rep);
     boundary_v::<F1024>(ctx, rep);
+    lenient_v::<F512>(ctx, rep);
+    lenient_v::<F1024>(ctx, rep);
+    rep.require("lenient_malformed_cases", 100);
     for k in ["at_bound-1", "at_bound+0", "at_bound+1"] {
         rep.require(k, 20);
     }
